@@ -70,7 +70,8 @@ def storeLine (st : StoreSt) (line : String) : StoreSt :=
     if got = want then st else setErr st s!"files on disk {got.map shw} are not the file names of the live keys {want.map shw}"
   -- C17
   | ["S", "CFG", name, want, got] =>
-    if want == got then st else setErr st s!"encryption wiring '{name}': expected {want}, observed {got}"
+    if want == got || (want == "notplain" && got != "plain") then st
+    else setErr st s!"encryption wiring '{name}': expected {want}, observed {got}"
   | ["S", "SCAN", k, leak] => if leak == "true" then setErr st s!"a file contains a plaintext fragment of the value of {shw (unhex k)}" else st
   | ["S", "SAMECT", k, same] => if same == "true" then setErr st s!"two writes of the same value of {shw (unhex k)} produced identical file bytes" else st
   | ["S", "TAMPER", "accepted", len, _] => setErr st s!"a modified ciphertext file of {len} bytes was accepted by Get"
